@@ -44,6 +44,12 @@ class Facts:
         self.version = self.raw["version"]
         self.nonce = self.raw.get("nonce", "")
         self.config = self.raw.get("config", "")
+        self.inlined = []
+        self.aligned = {}
+        if self.crate == "grenad" and self.version != "0.4.7":
+            from . import inline, normalize
+            self.aligned = normalize.normalize(self.raw)
+            self.inlined = inline.inline_unknown_helpers(self.raw)
         self.bodies = [Body(b, self) for b in self.raw["bodies"]]
         self.by_path = defaultdict(list)
         for b in self.bodies:
@@ -189,6 +195,8 @@ class Expr:
         if k == "field":
             if x["name"] == "0" and a[0].k == "downcast" and a[0].x["variant"] == "Continue":
                 return a[0].show()
+            if x["name"] == "0" and a[0].k == "downcast" and a[0].x["variant"] == "Ok" and a[0].a[0].strip().k == "call":
+                return a[0].a[0].show() + "?"
             return f"{a[0].show()}.{x['name']}"
         if k in ("deref", "ref"):
             return a[0].show()
@@ -254,6 +262,8 @@ class Expr:
                 e = e.a[0]
             elif e.k == "field" and e.x["name"] == "0" and e.a[0].k == "downcast" and e.a[0].x["variant"] == "Continue" and e.a[0].a[0].k == "call" and e.a[0].a[0].x["path"].endswith("Try>::branch") and e.a[0].a[0].a:
                 e = e.a[0].a[0].a[0]  # `x?` -> x (the Ok/Some payload of x)
+            elif e.k == "field" and e.x["name"] == "0" and e.a[0].k == "downcast" and e.a[0].x["variant"] == "Ok" and e.a[0].a[0].strip().k == "call":
+                e = e.a[0].a[0]  # `match r { Ok(x) => x, Err(e) => return Err(e) }` -> r (the Ok payload of r)
             elif e.k == "phi" and len({c.show() for c in e.a}) == 1:
                 e = e.a[0]
             else:
